@@ -61,7 +61,7 @@ def min_valid(variant):
 
 def encodings_for(variant):
     if variant in ("ws2dgu", "ws2dpgu", "ws2dwcv", "ws2dwcvp"):
-        return wc.ENCODINGS
+        return wc.ENCODINGS + wc.SELF_DECLARED
     return wc.ENCODINGS[:4]
 
 
